@@ -1015,6 +1015,7 @@ func (r *Runner) subshell(background bool) *Runner {
 		stderr:         r.stderr,
 		filename:       r.filename,
 		opts:           r.opts,
+		noErrExit:      r.noErrExit,
 		usedNew:        r.usedNew,
 		exit:           r.exit,
 		lastExit:       r.lastExit,
